@@ -122,8 +122,10 @@ def main(argv=None):
     known_hits = []
     # a failed assertion inside a spliced ghost proof block means "the proof did not go through" (Verus then assumes it for the rest
     # of the function): that is UNDECIDED, not a verdict.  It is reported as inconclusive unless a real obligation fails as well.
-    hints = [f for f in fails if f.obligation.endswith('#proof-hint')]
-    fails = [f for f in fails if not f.obligation.endswith('#proof-hint')]
+    # (the same holds for the postcondition spliced onto a closure: it is part of the proof, not of the property)
+    HINTY = ('#proof-hint', '#closure-postcondition')
+    hints = [f for f in fails if f.obligation.endswith(HINTY)]
+    fails = [f for f in fails if not f.obligation.endswith(HINTY)]
     if hints and not fails:
         class _H:
             unit = hints[0].unit
